@@ -20,8 +20,9 @@ def build(tier, seed):
             w = (2.0 + d * d * 0.6) * (2.0 if t["amin"] else 1.0)
             items.append((Harness("c04_check_%s_d%d" % (n, d),
                                   {"type": n, "degree": d, "input": "%d messages, each every value in [-127,127]" % d,
+                                   "constructor": "default()" if d == 3 else "new()",
                                    "oracle": "reference integer rule + sign/magnitude/PHL facts of the statement"}, w, stubs="TABLE"),
-                          "crate::c04_check_i8!(c04_check_%s_d%d, %s, %s, %d, %d);" % (n, d, n, arith.cfg_expr(t), d, d + 3)))
+                          "crate::c04_check_i8!(c04_check_%s_d%d, %s, %s, %d, %d, %s);" % (n, d, n, arith.cfg_expr(t), d, d + 3, "default" if d == 3 else "new")))
     for t in arith.float_types():
         n, f, base = t["name"], t["f"], t["base"]
         sign = "true" if base in ("Phi", "Tanh", "Minstarapprox") else "false"
@@ -31,7 +32,7 @@ def build(tier, seed):
                 continue
             items.append((Harness("c04_check_%s_d%d" % (n, d),
                                   {"type": n, "degree": d, "input": "%d messages, every finite %s with |x| <= 1e30" % (d, f),
-                                   "oracle": "one message per neighbour" + ("; sign = product of other signs" if sign == "true" else "") +
+                                   "oracle": "one message per neighbour; no NaN" + ("; sign = product of other signs" if sign == "true" else "") +
                                              ("; 0 <= |out| <= min other |in|" if mag == "true" else "")},
                                   2.0 + d * d, stubs="CONTRACT"),
                           "crate::c04_check_f!(c04_check_%s_d%d, %s, %s, crate::macros::any_%s_1e30, %d, %d, %s, %s);" % (n, d, n, f, f, d, d + 3, sign, mag)))
